@@ -141,7 +141,7 @@ impl XDiscreteDistribution {
             Self::Binomial(i) => inverse_cdf(i, x).into(),
             Self::Custom(items) => {
                 let idx = items.partition_point(|(_, p)| p <= &x);
-                items[idx].0.clone()
+                items[idx.min(items.len() - 1)].0.clone()
             }
             Self::Hypergeometric(i) => inverse_cdf(i, x).into(),
             Self::NegativeBinomial(i) => {
@@ -176,7 +176,7 @@ impl XDiscreteDistribution {
                 .sample_iter(Standard)
                 .map(|x: f64| {
                     let idx = items.partition_point(|(_, p)| p <= &x);
-                    items[idx].0.clone()
+                    items[idx.min(items.len() - 1)].0.clone()
                 })
                 .take(n)
                 .collect(),
